@@ -1,7 +1,7 @@
 SPECIFICATION Spec
 CONSTANTS
-  K = 2
-  NSeries = 4
+  K = 3
+  NSeries = 3
   MaxIt = 2
   Ranks = {0, 1}
 INVARIANT Post
